@@ -155,6 +155,10 @@ def check(ctx: Ctx):
     l1 = [l for l in gd.node.body if isinstance(l, ast.For) and norm(l.iter) == gd.params[0]]
     ok = ok and len(l1) == 1 and not any(isinstance(n, (ast.If, ast.Break, ast.Continue)) for n in ast.walk(l1[0]))
     ctx.check(ok, "R-NEIGHBORS", "one building node per remaining variable, wired with its neighbours and relations among *all* relations; DFS started at the root with an empty token", gd, gd.node, "")
+    reb = [a for a in ast.walk(gd.node) if isinstance(a, (ast.Assign, ast.AugAssign, ast.AnnAssign)) and any(isinstance(t_, ast.Name) and t_.id in gd.params[:2] for t_ in (a.targets if isinstance(a, ast.Assign) else [a.target]))]
+    ctx.check(not reb, "R-NEIGHBORS", "the variables and the relations given to _generate_dfs_tree are used whole (never filtered or rebound)", gd, reb[0] if reb else gd.node,
+              "a relation whose scope also holds an external variable (or any variable outside the list) still links the decision variables of its scope: filtering the "
+              "relations on `all dimensions in variables` drops it from its nodes and can split its variables into separate trees")
     # ---- DFS ----------------------------------------------------------------------------------
     rt = repo.func(PT, "_BuildingNode._receive_token")
     ctx.touch(rt)
@@ -279,6 +283,7 @@ def check(ctx: Ctx):
 
 _P = "pydcop/computations_graph/pseudotree.py"
 VARIANTS = [
+    ("dfs_relations_prefiltered_on_all_dimensions", _P, "    # build a node for each of the variables\n    nodes = []\n    for v in variables:\n        n = _BuildingNode(v)", "    var_names = {v.name for v in variables}\n    relations = [r for r in relations if all(v.name in var_names for v in r.dimensions)]\n    nodes = []\n    for v in variables:\n        n = _BuildingNode(v)", "break", "R-NEIGHBORS"),
     ("pseudotree_nodes_reset_per_root", _P, "        links = defaultdict(lambda: [])  # type: Dict[str, List]\n        _nodes = {}\n        for root in self._roots:\n", "        for root in self._roots:\n            links = defaultdict(lambda: [])  # type: Dict[str, List]\n            _nodes = {}\n", "break", "R-ACCUM"),
     ("isolated_fast_path", _P, "    roots = []\n    while len(variables) != 0:", "    roots = []\n    for v in list(variables):\n        if not any(v in c.dimensions and len(c.dimensions) > 1 for c in constraints):\n            roots.append(_BuildingNode(v))\n            variables.remove(v)\n    while len(variables) != 0:", "break", "R-FOREST"),
     ("neighbors_not_deduplicated", _P, "            for n in nodes:\n                if n.variable in dim_vars and n not in node_neighbors:\n                    node_neighbors.append(n)", "            node_neighbors.extend(n for n in nodes if n.variable in dim_vars)", "break", "R-NEIGHBORS"),
